@@ -167,7 +167,7 @@ impl Prop for C13 {
                 let before = &src[..src.len().min(src.match_indices('\n').nth(line.saturating_sub(2) as usize).map_or(0, |(i, _)| i))];
                 let mut o = Outcome::pass();
                 o.digest = fnv_str(&e.text);
-                o.nontrivial = line >= 2 && (depth > 0 || before.contains("\n\n") || before.contains("(multi") || before.contains("(else") || before.contains("multi\nline"));
+                o.nontrivial = line >= 2 && (depth > 0 || before.contains("\n\n") || before.contains("(multi") || before.contains("(else") || before.contains("multi\nline") || before.contains("\n)") || before.contains("\n\""));
                 o.labels.push(format!("fault:{}", name));
                 o.labels.push(format!("err:{}", e.code));
                 if depth > 0 {
@@ -188,6 +188,9 @@ impl Prop for C13 {
                 if before.contains("multi\nline\"") || before.contains("two\n\nblank") {
                     o.labels.push("after_multiline_string".into());
                 }
+                if before.contains("\n)") || before.contains("\n\"") {
+                    o.labels.push("after_token_whose_last_line_is_empty".into());
+                }
                 o
             }
         }
@@ -200,7 +203,7 @@ impl Prop for C13 {
     }
     fn expected_labels(&self) -> Vec<String> {
         let mut v: Vec<String> = FAULTS.iter().map(|f| format!("fault:{}", f.0)).collect();
-        for s in ["inside_block", "depth>=2", "at_eof", "line_location", "after_multiline_comment", "after_multiline_string"] {
+        for s in ["inside_block", "depth>=2", "at_eof", "line_location", "after_multiline_comment", "after_multiline_string", "after_token_whose_last_line_is_empty"] {
             v.push(s.into());
         }
         v
